@@ -48,7 +48,9 @@ CLAIMS = {
          "then first registrations run under the scheduler with deliveries injected from the instant the kernel "
          "disposition is the library's (read back with sigaction), on the registering thread, on a dedicated thread and "
          "while another signal is being registered; TLC validates the chained handler's call log (once, first, same "
-         "convention, same info pointer) against V_C04",
+         "convention, same info pointer) against V_C04; on x86-64 the first registration over a foreign handler runs under "
+         "the trap flag and the signal itself is delivered (by the kernel) at every one of its ~5000 instruction "
+         "boundaries: whoever handles it, the foreign handler runs exactly once with its own convention (TraceStep.tla)",
          "7.C04", "exhaustive schedule enumeration of real code + TLC trace validation"),
  "C05": ("model_checking",
          "sequential and concurrent histories over register/unregister(live|stale)/unregister_signal/deliver on the "
@@ -104,13 +106,15 @@ CLAIMS = {
          "watched, valid, forbidden, OS-rejected, negative, >= 128; both exfiltrators) with an independent witness "
          "action, a leak sweep of the registry and the wait status; TLC validates each record against SignalsOps.tla "
          "(rejected add = no-op, later adds normal, never abort, drop unregisters exactly its own); scheduler scenarios "
-         "with add_signal racing deliveries are validated against TraceIteratorAbs (mutex never poisoned)",
+         "with add_signal racing deliveries are validated against TraceIteratorAbs (mutex never poisoned); the instance and "
+         "a handle dropped simultaneously on two real threads, thousands of times, must leave nothing registered",
          "7.C12", "history probes of real code + TLC trace validation against sequential TLA+ model"),
  "C13": ("model_checking",
          "forked probes with real pipes / stream / datagram sockets, blocking and not, empty / partly filled / completely "
          "full, bursts of deliveries (thorough: 70000), varying descriptor numbers: bytes read back, blocking caught by "
          "an alarm watchdog, F_GETFD and descriptor-number reuse after unregister, rejected registrations; TLC validates "
-         "against TracePipe.tla and explores Pipe.tla with the wake method / O_NONBLOCK behaviour observed on the code",
+         "against TracePipe.tla and explores Pipe.tla with the wake method / O_NONBLOCK behaviour observed on the code; "
+         "duplicates of one write end registered for two signals keep delivering after one registration is removed",
          "7.C13", "configuration probes of real code + TLC trace validation + TLA+ model with extracted parameters"),
  "C14": ("model_checking",
          "one forked probe per (13 entry points x signal numbers [quick: 18 representative, thorough: -2..130 and "
